@@ -101,7 +101,10 @@ class Renderer:
                     return "(" + s + ")"
                 return s
             if op == "not":
-                return "NOT(" + self.r(n[2], 0) + ")"
+                s = "NOT(" + self.r(n[2], 0) + ")"
+                if self.sp in ("full", "notbr") and parent_op is not None:
+                    return "(" + s + ")"       # the negation itself bracketed, as an operand: (NOT(a>b))*c  ('notbr': min + only these brackets)
+                return s
             return "%s(%s)" % (FUN[op], self.r(n[2], 0))
         if k == "if":
             s = "IF %s THEN %s ELSE %s" % (self.r(n[1], 0), self.r(n[2], 0), self.r(n[3], 0))
@@ -128,6 +131,16 @@ class Renderer:
 
 def render(n, spelling="min", names=None):
     return Renderer(spelling, names).r(n, 0)
+
+
+def has_not_operand(n, parent_op=None):
+    """would spelling 'notbr' differ from 'min' for this AST? (a negation that is an operand of a binary operator)"""
+    if not isinstance(n, list):
+        return False
+    if n and n[0] == "un" and n[1] == "not" and parent_op is not None:
+        return True
+    op = n[1] if n and n[0] == "bin" else None
+    return any(has_not_operand(x, op) for x in n[1:] if isinstance(x, list))
 
 
 def has_bare_if(n, edge=True, side=None, parent_op=None):
